@@ -65,6 +65,18 @@ def pure(name, args):
 
 
 def eqterm(a, b):
+    # `x.cmp(&y) == Ordering::Equal` is `x == y` (Eq and Ord agree for derived impls and std types)
+    for x, y in ((a, b), (b, a)):
+        if isinstance(y, tuple) and y and y[0] == 'adt' and str(y[1]).endswith('cmp::Ordering') and y[2] == 'Equal' \
+                and isinstance(x, tuple) and x and x[0] == 'pure' and re.search(r'(^|::)cmp$', str(x[1])) and len(x[2]) == 2:
+            def strip(t):
+                for _ in range(4):
+                    if t[0] == 'cref':
+                        t = t[1]
+                    else:
+                        break
+                return t
+            return eqterm(strip(x[2][0]), strip(x[2][1]))
     return ('pure', 'eq', tuple(sorted((a, b), key=repr)))
 
 
@@ -1061,6 +1073,29 @@ def decide_bool(px, st, v):
         a, b = v[2]
         if a == b:
             return [(True, st)]
+        # `x == None` is `x.is_none()`; `Some(..) == None` is false
+        for x, y in ((a, b), (b, a)):
+            if y[0] == 'adt' and y[2] == 'None' and not y[3] and 'option::Option' in y[1]:
+                xx = x
+                for _ in range(3):
+                    if xx[0] in ('ref', 'cref'):
+                        try:
+                            xx = px.deref_value(st, xx)
+                        except Exception:
+                            break
+                return [((tag == 'neg'), s2) for tag, s2 in px.decide_tag(st, xx)]
+        # `a.cmp(&b) == Ordering::Equal` is `a == b` (Eq and Ord agree: derived impls, ITEM-DERIVED; std types)
+        for x, y in ((a, b), (b, a)):
+            if y[0] == 'adt' and y[1].endswith('cmp::Ordering') and y[2] == 'Equal' and x[0] == 'pure' and re.search(r'(^|::)cmp$', x[1]) and len(x[2]) == 2:
+                def val(t):
+                    for _ in range(4):
+                        if t[0] in ('ref', 'cref'):
+                            try:
+                                t = px.deref_value(st, t)
+                            except Exception:
+                                break
+                    return t
+                return decide_bool(px, st, eqterm(val(x[2][0]), val(x[2][1])))
         return None
     return None
 
